@@ -30,6 +30,31 @@ def _forms():
     return forms.all_forms(P, harness.REPO)
 
 
+_BASE = {}
+
+
+def baseline():
+    """the committed snapshot of the pinned tree's recognised forms (tools/gen_baseline.py); specification data"""
+    if not _BASE:
+        import json, os, re
+        d = json.load(open(os.path.join(os.path.dirname(__file__), "..", "data", "baseline_forms.json")))
+        _BASE.update(d)
+        _BASE["rx"] = [re.compile(p_, fl) for p_, fl in d["patterns"]]
+    return _BASE
+
+
+def baseline_missing():
+    """indices of baseline forms that the live pattern list no longer generates (empty on the pinned tree)"""
+    fs, hv, st = _forms()
+    live = {(f.parts()[0], f.parts()[2]) for f in fs}
+    return [i for i, b in enumerate(baseline()["forms"]) if (b["pre"], b["suf"]) not in live]
+
+
+def _recognised_baseline(line_):
+    norm = " ".join(line_.split())
+    return any(c.search(norm) for c in baseline()["rx"])
+
+
 def bounds(tier):
     return dict(value_level="all secrets of length 1..%d over the secret alphabet; shaped $1$ (salt 1..4), $6$, $9$ inputs with symbolic bodies" % (4 if tier == "quick" else 6),
                 line_level="generated line forms (%s), secret slot of %s symbolic characters, trailing context %r" % (
@@ -62,6 +87,9 @@ def items(tier, seed):
             out.append(Item("C07", "line", dict(form=idx, n=2, suffix=1), budget_s=400, obligation="H3-trailing-context"))
         for hi in sorted(rnd.sample(range(len(hv)), min(len(hv), 12))):
             out.append(Item("C07", "line", dict(harvested=hi, n=2, suffix=0), budget_s=400, obligation="H2-line-level"))
+    # line forms of the pinned tree that the live pattern list no longer produces: each explored on its own
+    for bi in baseline_missing()[:60]:
+        out.append(Item("C07", "line", dict(corpus=bi, n=2, suffix=0), budget_s=400 if tier == "quick" else 2400, obligation="H2b-baseline-forms-still-recognised"))
     early = [i for i in sorted(base.values()) if fs[i].pat_index < 36]
     hsel = sorted(base.values()) if tier == "thorough" else sorted(rnd.sample(early, 3)) + [i for i, f in enumerate(fs) if f.pat_index == 5][:1]
     for idx in hsel:
@@ -113,7 +141,8 @@ def _report(res, viol, mk_text, describe, replayer, extra_args, limit=4):
             continue
         t1 = mk_text(m, None)
         t2 = mk_text(m, v.get("other")) if v.get("other") is not None else None
-        if extra_args.get("mode") == "line" and not (_recognised(t1) and (t2 is None or _recognised(t2))):
+        rec = _recognised_baseline if extra_args.get("corpus") else _recognised
+        if extra_args.get("mode") == "line" and not (rec(t1) and (t2 is None or rec(t2))):
             res["notes"].append("witness outside the recognised line forms skipped: %r" % t1)
             continue
         tag = "%s:%s" % (v["kind"], describe(t1))
@@ -288,6 +317,14 @@ def line(item, res):
         else:
             fixed_len = None
         label = "p%d" % f.pat_index
+    elif "corpus" in item.params:
+        b = baseline()["forms"][item.params["corpus"]]
+        pre, suf = b["pre"], b["suf"]
+        alphabet = sec.SECRET_ALPHABET & frozenset(c for lo, hi in b["chars"] for c in range(lo, hi + 1))
+        fixed_len = b["lo"] if (b["hi"] is not None and b["lo"] == b["hi"]) else None
+        if fixed_len is not None and fixed_len <= 4:
+            n = fixed_len
+        label = "b%d" % b["pat"]
     else:
         pre, suf, _ = hv[item.params["harvested"]]
         alphabet = sec.SECRET_ALPHABET
@@ -323,7 +360,7 @@ def line(item, res):
     def describe(t):
         secret = t[len(pre):len(pre) + len(body)]
         return "%s:%s:%s" % (label, _cell_name(secret), "trailing-word" if (suf + sfx).strip() else "plain")
-    _finish(item, res, run, cs, vs, mk_text, label, dict(mode="line"), describe, full=body)
+    _finish(item, res, run, cs, vs, mk_text, label, dict(mode="line", corpus=True) if "corpus" in item.params else dict(mode="line"), describe, full=body)
     res["samples"] = res["samples"][:2] + [dict(form=pre + "<secret>" + suf + sfx, paths=len(run.paths))]
 
 
